@@ -488,6 +488,9 @@ func (c *Compiler) isFeatureValid(m parse.Node, n parse.Node, featTree map[strin
 		return false
 	}
 	featTree[featName] = true
+	// Only the features on the current chain of references count: a feature
+	// reached twice along different chains is not a cycle.
+	defer delete(featTree, featName)
 
 	// Verify each feature that this feature references via an if-feature
 	for _, ifFeat := range n.ChildrenByType(parse.NodeIfFeature) {
